@@ -27,6 +27,19 @@ struct Opt {
     /// (cli value, toml literal)
     v1: (String, String),
     v2: (String, String),
+    /// further values of the option's domain (enumeration members, numeric boundary and sentinel
+    /// values); placement index 3.. ; may be invalid - the oracle is differential
+    extra: Vec<(String, String)>,
+}
+
+impl Opt {
+    fn value(&self, idx: u8) -> &(String, String) {
+        match idx {
+            1 => &self.v1,
+            2 => &self.v2,
+            k => &self.extra[usize::from(k) - 3],
+        }
+    }
 }
 
 fn q(s: &str) -> String {
@@ -37,7 +50,7 @@ fn options() -> Vec<Opt> {
     let mut v = vec![];
     let mut val = |cli: &str, section: &'static str, a: &str, b: &str, quoted: bool| {
         let t = |x: &str| if quoted { q(x) } else { x.to_string() };
-        v.push(Opt { cli: cli.to_string(), section, key: cli.to_string(), flag: false, v1: (a.to_string(), t(a)), v2: (b.to_string(), t(b)) });
+        v.push(Opt { cli: cli.to_string(), section, key: cli.to_string(), flag: false, v1: (a.to_string(), t(a)), v2: (b.to_string(), t(b)), extra: vec![] });
     };
     val("mode", "trippy", "stream", "json", true);
     val("log-format", "trippy", "compact", "json", true);
@@ -79,7 +92,7 @@ fn options() -> Vec<Opt> {
     val("tui-locale", "tui", "fr", "de", true);
     val("tui-timezone", "tui", "UTC", "Europe/London", true);
     for (f, s) in [("unprivileged", "trippy"), ("icmp-extensions", "strategy"), ("dns-resolve-all", "dns"), ("dns-lookup-as-info", "dns"), ("tui-preserve-screen", "tui")] {
-        v.push(Opt { cli: f.to_string(), section: s, key: f.to_string(), flag: true, v1: (String::new(), "true".into()), v2: (String::new(), "false".into()) });
+        v.push(Opt { cli: f.to_string(), section: s, key: f.to_string(), flag: true, v1: (String::new(), "true".into()), v2: (String::new(), "false".into()), extra: vec![] });
     }
     let theme = [
         "bg-color", "border-color", "text-color", "tab-text-color", "hops-table-header-bg-color", "hops-table-header-text-color", "hops-table-row-active-text-color", "hops-table-row-inactive-text-color", "hops-chart-selected-color",
@@ -89,7 +102,7 @@ fn options() -> Vec<Opt> {
         "info-bar-bg-color", "info-bar-text-color",
     ];
     for t in theme {
-        v.push(Opt { cli: format!("theme:{t}"), section: "theme-colors", key: t.to_string(), flag: false, v1: ("magenta".into(), q("magenta")), v2: ("ff00ff".into(), q("ff00ff")) });
+        v.push(Opt { cli: format!("theme:{t}"), section: "theme-colors", key: t.to_string(), flag: false, v1: ("magenta".into(), q("magenta")), v2: ("ff00ff".into(), q("ff00ff")), extra: vec![] });
     }
     let binds = [
         "toggle-help", "toggle-help-alt", "toggle-settings", "toggle-settings-tui", "toggle-settings-trace", "toggle-settings-dns", "toggle-settings-geoip", "toggle-settings-bindings", "toggle-settings-theme", "toggle-settings-columns",
@@ -100,7 +113,38 @@ fn options() -> Vec<Opt> {
     let keys = "abcdefghijklmnopqrstuvwxyz0123456789";
     for (i, b) in binds.iter().enumerate() {
         let k: String = if i < keys.len() { keys[i..=i].to_string() } else { ["tab", "home", "end", "insert"][i - keys.len()].to_string() };
-        v.push(Opt { cli: format!("bind:{b}"), section: "bindings", key: (*b).to_string(), flag: false, v1: (format!("meta+{k}"), q(&format!("meta+{k}"))), v2: (format!("hyper+{k}"), q(&format!("hyper+{k}"))) });
+        v.push(Opt { cli: format!("bind:{b}"), section: "bindings", key: (*b).to_string(), flag: false, v1: (format!("meta+{k}"), q(&format!("meta+{k}"))), v2: (format!("hyper+{k}"), q(&format!("hyper+{k}"))), extra: vec![] });
+    }
+    // value domains for the single-option sweep
+    let enums: &[(&str, &[&str])] = &[
+        ("mode", &["tui", "stream", "pretty", "markdown", "csv", "json", "dot", "flows", "silent"]),
+        ("log-format", &["compact", "pretty", "json", "chrome"]),
+        ("log-span-events", &["off", "active", "full"]),
+        ("protocol", &["icmp", "udp", "tcp"]),
+        ("addr-family", &["ipv4", "ipv6", "ipv6-then-ipv4", "ipv4-then-ipv6", "system"]),
+        ("multipath-strategy", &["classic", "paris", "dublin"]),
+        ("dns-resolve-method", &["system", "resolv", "google", "cloudflare"]),
+        ("tui-address-mode", &["ip", "host", "both"]),
+        ("tui-as-mode", &["asn", "prefix", "country-code", "registry", "allocated", "name"]),
+        ("tui-icmp-extension-mode", &["off", "mpls", "full", "all"]),
+        ("tui-geoip-mode", &["off", "short", "long", "location"]),
+        ("tui-custom-columns", &["h", "holsravbwdt", "HOLSRAVBWDT"]),
+        ("tui-locale", &["en", "zh", "xx"]),
+        ("tui-timezone", &["UTC", "Asia/Tokyo", "Nowhere/Land"]),
+        ("log-filter", &["trace", "off", ""]),
+    ];
+    let durations = ["min-round-duration", "max-round-duration", "grace-duration", "read-timeout", "dns-timeout", "dns-ttl", "tui-refresh-rate"];
+    let numeric = [
+        "target-port", "source-port", "initial-sequence", "max-inflight", "first-ttl", "max-ttl", "packet-size", "payload-pattern", "tos", "max-samples", "max-flows", "report-cycles", "tui-privacy-max-ttl", "tui-max-addrs",
+    ];
+    for o in &mut v {
+        if let Some((_, vals)) = enums.iter().find(|(n, _)| *n == o.cli) {
+            o.extra = vals.iter().map(|x| ((*x).to_string(), q(x))).collect();
+        } else if durations.contains(&o.cli.as_str()) {
+            o.extra = ["0ms", "1ms", "10ms", "50ms", "100ms", "1s", "10s", "1000s"].iter().map(|x| ((*x).to_string(), q(x))).collect();
+        } else if numeric.contains(&o.cli.as_str()) {
+            o.extra = ["0", "1", "7", "28", "64", "254", "255", "256", "1024", "1025", "33434", "64511", "64512", "65535"].iter().map(|x| ((*x).to_string(), (*x).to_string())).collect();
+        }
     }
     v
 }
@@ -117,11 +161,11 @@ fn build(opts: &[(usize, Placement)], table: &[Opt], ctx: &[String]) -> Result<S
     for (oi, (file, cli)) in opts {
         let o = &table[*oi];
         if let Some(f) = file {
-            let lit = if *f == 1 { &o.v1.1 } else { &o.v2.1 };
+            let lit = &o.value(*f).1;
             sections.entry(o.section).or_default().push(format!("{} = {}", o.key, lit));
         }
         if let Some(c) = cli {
-            let val = if *c == 1 { &o.v1.0 } else { &o.v2.0 };
+            let val = &o.value(*c).0;
             if o.flag {
                 argv.push(format!("--{}", o.cli));
             } else if let Some(item) = o.cli.strip_prefix("theme:") {
@@ -236,6 +280,62 @@ fn part_a(tier: Tier, findings: &Mutex<Findings>) -> serde_json::Value {
             background.push(i);
         }
     }
+    // single-option sweep over the option's whole value domain: every (file value, cli value) pair,
+    // including enumeration members, numeric boundaries and "auto" sentinels such as 0
+    let mut sweep_total = 0u64;
+    let mut sweep_ok = 0u64;
+    let mut sweep_skipped = 0u64;
+    for (i, o) in table.iter().enumerate() {
+        if o.extra.is_empty() {
+            continue;
+        }
+        let dom: Vec<Option<u8>> = std::iter::once(None).chain((1..=(2 + o.extra.len() as u8)).map(Some)).collect();
+        for (cname, ctx) in &contexts {
+            if ctx_owned(cname).contains(&o.cli.as_str()) {
+                continue;
+            }
+            for f in &dom {
+                for c in &dom {
+                    let opts = vec![(i, (*f, *c))];
+                    let got = build(&opts, &table, ctx);
+                    // not expressible (clap refuses the value) or the file is not a well-formed
+                    // configuration file at all (a literal outside the field's type makes the TOML
+                    // deserialiser reject the whole file, whatever the command line says)
+                    if matches!(&got, Err(e) if e.starts_with("cli:") || e.starts_with("config: TOML parse error")) {
+                        sweep_skipped += 1;
+                        continue;
+                    }
+                    let want = build(&reference(&opts, &table), &table, ctx);
+                    sweep_total += 1;
+                    let same = match (&got, &want) {
+                        (Ok(g), Ok(w)) => {
+                            sweep_ok += 1;
+                            g == w
+                        }
+                        // a value the file layer rejects at parse time need not be rejected
+                        // identically by the CLI-only equivalent; both must reject, though
+                        (Err(_), Err(_)) => true,
+                        _ => false,
+                    };
+                    if !same {
+                        let show = |x: &Option<u8>, cli: bool| x.map_or("absent".to_string(), |k| if cli { o.value(k).0.clone() } else { o.value(k).1.clone() });
+                        let detail = match (&got, &want) {
+                            (Ok(g), Ok(w)) => g.split(", ").zip(w.split(", ")).find(|(x, y)| x != y).map(|(x, y)| format!("got `{x}` expected `{y}`")).unwrap_or_default(),
+                            (g, w) => format!("placement gives {:?} but the CLI-only equivalent gives {:?}", g.as_ref().map(|_| "Ok").map_err(Clone::clone), w.as_ref().map(|_| "Ok").map_err(Clone::clone)),
+                        };
+                        let key = format!("precedence:{}", o.cli);
+                        findings.lock().unwrap().entry(key.clone()).or_insert(Finding {
+                            key,
+                            detail: format!("[context {cname}; {} file={} cli={}] {detail}", o.cli, show(f, false), show(c, true)),
+                            replay: json!({"check":"C16","part":"a-sweep","context":cname,"option":o.cli,"file":show(f, false),"cli":show(c, true)}),
+                            weight: (0, 0),
+                            count: 1,
+                        });
+                    }
+                }
+            }
+        }
+    }
     let pairs: Vec<(usize, usize)> = (0..n).flat_map(|a| ((a + 1)..n).map(move |b| (a, b))).collect();
     let stats = Mutex::new((0u64, 0u64, 0u64, vec![0u64; n]));
     mc::par_for(pairs.len(), mc::workers(), |pi| {
@@ -335,7 +435,7 @@ fn part_a(tier: Tier, findings: &Mutex<Findings>) -> serde_json::Value {
     let (total, ok, err, per) = stats.into_inner().unwrap();
     let min_ok = per.iter().copied().min().unwrap_or(0);
     assert!(min_ok > 0, "MACHINERY: an option never took part in an accepted configuration");
-    json!({"options": n, "pairs": pairs.len(), "configurations_compared": total, "accepted_and_equal": ok, "rejected_on_both_sides": err, "min_accepted_comparisons_per_option": min_ok, "background_options": background.len()})
+    json!({"single_option_domain_sweep_compared": sweep_total, "single_option_domain_sweep_accepted": sweep_ok, "single_option_domain_sweep_inexpressible": sweep_skipped, "options": n, "pairs": pairs.len(), "configurations_compared": total, "accepted_and_equal": ok, "rejected_on_both_sides": err, "min_accepted_comparisons_per_option": min_ok, "background_options": background.len()})
 }
 
 // ---------------------------------------------------------------------------------------------
@@ -532,7 +632,7 @@ pub fn run(args: &CheckArgs) -> i32 {
     rep.set("distinct_nontrivial", json!(a["accepted_and_equal"].as_u64().unwrap_or(0) + b["accepted_runs"].as_u64().unwrap_or(0)));
     rep.set("precedence", a);
     rep.set("accepted_implies_runnable", b);
-    rep.set("rule", json!("(a) 116 layered options (39 scalars, 5 flags, 34 theme colours, 38 key bindings), two valid non-default values each: EVERY pair of options x EVERY pair of placements {absent, file, CLI, both (file v1/CLI v2 and swapped)} (flags: file {absent,true,false} x CLI {absent,present}) in two contexts and, in the richer context, three backgrounds for the remaining options (all absent / all in the file / all on the CLI), through the real clap parser + TOML deserialiser + build_config; oracle: the effective TrippyConfig (Debug of every field) equals the one obtained by giving each option's effective value (CLI, else file, else default) on the command line only - or both are rejected; every option is first shown to have an effect. (b) Builder grid protocol x strategy x port direction x family x first_ttl {0,1,2,254,255} x max_ttl {0,1,3,254,255} x max_inflight {0,1,24,255} x initial_sequence {0,33434,64511,64512,65535} x packet_size {0,27,28,47,48,84,1024,1025} x privilege (thorough: x extension mode x timing profile; quick pairs sizes with sequences): every configuration Builder::build accepts is run over the simulated network with and without responses; a panic is a violation, an Err value is not. distinct_nontrivial = accepted comparisons + accepted runs"));
+    rep.set("rule", json!("(a) 116 layered options (39 scalars, 5 flags, 34 theme colours, 38 key bindings), two valid non-default values each: EVERY pair of options x EVERY pair of placements {absent, file, CLI, both (file v1/CLI v2 and swapped)} (flags: file {absent,true,false} x CLI {absent,present}) in two contexts and, in the richer context, three backgrounds for the remaining options (all absent / all in the file / all on the CLI), through the real clap parser + TOML deserialiser + build_config; oracle: the effective TrippyConfig (Debug of every field) equals the one obtained by giving each option's effective value (CLI, else file, else default) on the command line only - or both are rejected; every option is first shown to have an effect; + single-option sweep: every (file value, CLI value) pair over each scalar option's value domain (all enumeration members; numeric options {{0,1,7,28,64,254,255,256,1024,1025,33434,64511,64512,65535}}; durations {{0ms..1000s}}), incl. invalid values and sentinels such as 0 = auto (a file the TOML deserialiser rejects outright is not a configuration file and is skipped). (b) Builder grid protocol x strategy x port direction x family x first_ttl {0,1,2,254,255} x max_ttl {0,1,3,254,255} x max_inflight {0,1,24,255} x initial_sequence {0,33434,64511,64512,65535} x packet_size {0,27,28,47,48,84,1024,1025} x privilege (thorough: x extension mode x timing profile; quick pairs sizes with sequences): every configuration Builder::build accepts is run over the simulated network with and without responses; a panic is a violation, an Err value is not. distinct_nontrivial = accepted comparisons + accepted runs"));
     rep.sample(json!({"part": "a", "pair": ["first-ttl", "tui-geoip-mode"], "placements": "file=v1 & CLI=v2 ; file only", "background": "all others in the file"}));
     rep.sample(json!({"part": "b", "grid": "Udp/Dublin/FixedBoth/v6 first_ttl=1 max_ttl=3 max_inflight=24 seq=64511 size=48"}));
     rep.assumptions = vec!["the CLI->builder mapping of app.rs::start_tracer is not exercised (it spawns real sockets); the builder grid covers its image".into(), vcore::c01::ASSUME.into()];
